@@ -9,6 +9,11 @@
 (*   [t |-> thread, op |-> action name, i |-> tensor/shard index or 0,     *)
 (*    cmp |-> 1 (whole observable state) | 2 (budget counters) | 0,        *)
 (*    post |-> the observable state after the step (record Obs)]           *)
+(* cfg.fkind is the kind of exception the failing tensor / callback of the *)
+(* execution raised (RuntimeError, OSError, Abort - a BaseException that   *)
+(* is not an Exception -, KeyboardInterrupt, SystemExit): the formulas     *)
+(* (ErrJoin in particular) are evaluated on the observed states of         *)
+(* executions of every kind; no action of the specification reads it.      *)
 (* "gated": executed under the deterministic scheduler, one event per      *)
 (* granted step, post = real _ByteBudget counters + monitors read while    *)
 (* every other thread is parked.  "real": real threads, events ordered     *)
@@ -33,8 +38,8 @@ VARIABLES tid, l, conf
 tvars == <<vars, tid, l, conf>>
 
 ToSetOf(s) == {s[k] : k \in DOMAIN s}
-RawOf(j) == [size |-> j.size, obj |-> j.obj, fail |-> ToSetOf(j.fail), cap |-> j.cap, mw |-> j.mw,
-             maxShard |-> j.maxShard]
+RawOf(j) == [size |-> j.size, obj |-> j.obj, fail |-> ToSetOf(j.fail), cbfail |-> ToSetOf(j.cbfail), fkind |-> j.fkind,
+             cap |-> j.cap, mw |-> j.mw, maxShard |-> j.maxShard]
 
 TR == Traces[tid]
 Real == TR.mode = "real"
@@ -78,7 +83,7 @@ StepEv(e) ==
        [] e.op = "JoinInner" -> JoinInner(t)
        [] e.op = "ICbAcq"    -> ICbAcq(t)
        [] e.op = "OCbAcq"    -> OCbAcq(t)
-       [] e.op = "CbRun"     -> CbRun(t) /\ task[t] = e.i
+       [] e.op = "CbRun"     -> (CbRun(t) \/ CbFail(t)) /\ task[t] = e.i
        [] e.op = "OCbRel"    -> OCbRel(t)
        [] e.op = "ICbRel"    -> ICbRel(t)
        [] e.op = "FAcq"      -> FAcq(t)
@@ -88,7 +93,7 @@ StepEv(e) ==
        [] e.op = "AcqBlock"  -> AcqBlock(t)
        [] e.op = "WakeOk"    -> WakeFit(t)
        [] e.op = "WakeBlock" -> WakeBlock(t)
-       [] e.op = "Write"     -> Write(t)
+       [] e.op = "Write"     -> Write(t) \/ WriteFail(t)
        [] e.op = "Release"   -> Release(t)
        [] e.op = "TUnlock"   -> TUnlock(t)
        [] OTHER -> FALSE
